@@ -625,6 +625,8 @@ func c10Chain(c *Ctx, d *Dispatcher) {
 	c.R.Check(rule, "collector-gets-node", c.P.InstrPos(collCall), given, "the chain collector must be given the selector node itself (so that the maximal path is collected)")
 	// handler: joins with "." and appends one entry
 	joinOK, appendOK := false, false
+	var joinCall *ssa.Call
+	var appends []*ssa.Call
 	instrs(h, func(b *ssa.BasicBlock, i int, in ssa.Instruction) {
 		call, ok := in.(*ssa.Call)
 		if !ok || !inRegion(b) {
@@ -635,16 +637,65 @@ func c10Chain(c *Ctx, d *Dispatcher) {
 				for _, rt := range plainOrigins.Roots(call.Call.Args[0]) {
 					if rt.Kind == "call" && rt.V == ssa.Value(collCall) && rt.Idx == 0 {
 						joinOK = true
+						joinCall = call
 					}
 				}
 			}
 		}
 		if isBuiltinCall(in, "append") {
 			appendOK = true
+			appends = append(appends, call)
 		}
 	})
 	c.R.Check(rule, "joined-with-dot", pos, joinOK, "the collected chain must be joined with `.` into one reported path")
 	c.R.Check(rule, "one-entry-appended", pos, appendOK, "the joined path must be appended to the collected fields")
+	// every entry the member-access handler appends to a list of strings is that joined path (a path taken from
+	// anywhere else - the source text, a cache - is not the dotted chain of the names: `a!.b`, `a . b`)
+	if joinCall != nil {
+		for k, ap := range appends {
+			if len(ap.Call.Args) != 2 || ap.Call.Args[0].Type().String() != "[]string" {
+				continue
+			}
+			bad := ""
+			sl, isSl := ap.Call.Args[1].(*ssa.Slice)
+			if !isSl {
+				bad = "a whole list is appended"
+			} else if al, isAl := sl.X.(*ssa.Alloc); !isAl {
+				bad = "a whole list is appended"
+			} else if refs := al.Referrers(); refs != nil {
+				for _, r := range *refs {
+					ia, ok := r.(*ssa.IndexAddr)
+					if !ok {
+						continue
+					}
+					if ir := ia.Referrers(); ir != nil {
+						for _, u := range *ir {
+							if st, ok := u.(*ssa.Store); ok && st.Addr == ssa.Value(ia) {
+								fromJoin := st.Val == ssa.Value(joinCall)
+								if !fromJoin {
+									for _, rt := range plainOrigins.Roots(st.Val) {
+										if rt.Kind == "call" && rt.V == ssa.Value(joinCall) && len(rt.Path) == 0 {
+											fromJoin = true
+										}
+									}
+								}
+								if !fromJoin {
+									bad = "the appended entry is " + describeValue(st.Val)
+								}
+							}
+						}
+					}
+				}
+			}
+			cons := fmt.Sprintf("appended-entry-is-the-joined-path#%d", k+1)
+			if bad == "" {
+				c.R.Add(rule, cons, c.P.InstrPos(ap), OK, "")
+			} else {
+				// not provably wrong: a path of another origin may spell the same chain; the analysis cannot tell
+				c.R.Undecided(rule, cons, c.P.InstrPos(ap), "every path the member-access handler reports must be the `.`-join of the collected names; "+bad+": whether that text is the dotted chain of the names (`a!.b`, `a . b`) cannot be decided")
+			}
+		}
+	}
 	c.R.Check("C10.child-errors", "SelectorExpression.chain", c.P.InstrPos(collCall), c.errCheckedTuple(h, collCall, 1), "an unsupported base (anything but a name or path) must be refused: the collector's error must be returned")
 	// collector: type switch with selector arm (recursive, base first), identifier arm, default error
 	var p *ssa.Parameter
